@@ -82,6 +82,9 @@ FamPostings(u) ==
     \cup { Case("postings-noamount", "", << [BaseTx EXCEPT !.posts[2] = [ind |-> i, st |-> s, kind |-> k, acct |-> a, gap |-> 2,
                                                            amt |-> <<>>, cost |-> <<>>, asrt |-> <<>>, cmt |-> pc]] >>) :
           i \in {0, 2, 4}, s \in {"", "*"}, k \in {"real", "paren", "bracket"}, a \in 1..Len(Accounts), pc \in PComments }
+    \cup { Case("postings-assert-only", "", << [BaseTx EXCEPT !.posts[2] = [ind |-> i, st |-> s, kind |-> k, acct |-> a, gap |-> g,
+                                                           amt |-> <<>>, cost |-> <<>>, asrt |-> b, cmt |-> pc]] >>) :
+          i \in {0, 4}, s \in {"", "*"}, k \in {"real", "paren", "bracket"}, a \in 1..Len(Accounts), g \in {2, 4}, b \in PAsrts \ {<<>>}, pc \in PComments }
     \cup { Case("postings-cline", "", << [BaseTx EXCEPT !.posts = ps] >>) :
           ps \in { << [cline |-> c[1], ind |-> i] >> \o BaseTx.posts : c \in PComments \ {NoCmt}, i \in {2, 4} }
                  \cup { << BaseTx.posts[1], [cline |-> c[1], ind |-> i], BaseTx.posts[2] >> : c \in PComments \ {NoCmt}, i \in {2, 4} }
